@@ -59,6 +59,7 @@ class Contract:
         self.ghost_at = []        # (predicate on ast node, python hook) ghost statements
         self.pure = False
         self.entry_assume = []    # spec exprs assumed at entry in addition to requires (typing)
+        self.relies_ = []         # [(Clause, reason)] assumed at call sites only
         self.abstract_ = []       # (statement text prefix, reason): statements not modelled
         self.checks_ = []         # (statement text prefix, Clause): assertion before a statement
         self.ghost_entry_ = []    # (ghost name, spec expr): ghost assignments at function entry
@@ -101,6 +102,13 @@ class Contract:
 
     def ensures(self, label, src, props=None, hints=None):
         self.ensures_.append(Clause(label, src, props or self.props, hints))
+        return self
+
+    def rely(self, label, src, reason):
+        """A postcondition assumed at call sites but NOT proved of the body: an environment
+        (rely) condition whose guarantee side is proved elsewhere (named in `reason`). Listed in
+        the evidence under trusted_base."""
+        self.relies_.append((Clause(label, src, self.props), reason))
         return self
 
     def raises(self, exc, when, ensures=None, props=None, label=None):
